@@ -101,8 +101,9 @@ let handle (line:string) : string =
     let g = next_list read_node in
     let deps = next_list next_nat in
     let rs = next_list read_req in
-    let hdr = Printf.sprintf "wf=%d reach=%d order=%s prior=%s # "
+    let hdr = Printf.sprintf "wf=%d good=%d reach=%d order=%s prior=%s # "
         (if wf_dagb g then 1 else 0)
+        (if good_dagb g then 1 else 0)
         (if same_setb (needed g deps) (dfs_order g deps) then 1 else 0)
         (String.concat "," (List.map (fun x -> string_of_int (int_of_nat x)) (dfs_order g deps)))
         (String.concat "," (List.map (fun x -> string_of_int (int_of_nat x)) (prior_order g deps))) in
